@@ -1522,6 +1522,11 @@ def add(fprints, weights=None):
     if len(fprints) == 0:
         return None
 
+    if any(fprint.bits != fprints[0].bits for fprint in fprints):
+        raise E3FPBitsValueError(
+            "cannot add fingerprints of different sizes"
+        )
+
     if weights is None:
         new_counts = sum_counts_dict(*fprints)
         for fprint in fprints:
